@@ -393,6 +393,7 @@ type Env struct {
 	Sorts   map[string]*Sort                            // named sorts (type parameters)
 	Funcs   map[string]FuncSym                          // uninterpreted function symbols visible to the contract ($key)
 	Pure    func(name string, args []Term) (Term, bool) // application of a pure repository function
+	Reveal  map[string]bool
 }
 
 type FuncSym struct {
@@ -406,10 +407,11 @@ type SpecDef struct {
 	Sorts  []string
 	Body   Expr
 	Rec    bool // recursive: emitted once as define-fun-rec, applied by name
+	Opaque bool // applied as an uninterpreted symbol unless the contract reveals it
 }
 
 func (env *Env) child() *Env {
-	n := &Env{Vars: map[string]Term{}, Lookup: env.Lookup, Old: env.Old, FieldOf: env.FieldOf, Defs: env.Defs, Sorts: env.Sorts, Funcs: env.Funcs, Pure: env.Pure}
+	n := &Env{Vars: map[string]Term{}, Lookup: env.Lookup, Old: env.Old, FieldOf: env.FieldOf, Defs: env.Defs, Sorts: env.Sorts, Funcs: env.Funcs, Pure: env.Pure, Reveal: env.Reveal}
 	for k, v := range env.Vars {
 		n.Vars[k] = v
 	}
@@ -861,7 +863,10 @@ func callSMT(e *ECall, env *Env) Term {
 		if d.Rec {
 			return T(SInt, "(spec.%s %s)", d.Name, joinTerms(a))
 		}
-		c := &Env{Vars: map[string]Term{}, Defs: env.Defs, Pure: env.Pure, Sorts: env.Sorts}
+		if d.Opaque && !env.Reveal[d.Name] {
+			return T(SBool, "(spec.%s %s)", d.Name, joinTerms(a))
+		}
+		c := &Env{Vars: map[string]Term{}, Defs: env.Defs, Pure: env.Pure, Sorts: env.Sorts, Reveal: env.Reveal}
 		for i, p := range d.Params {
 			c.Vars[p] = a[i]
 		}
